@@ -117,7 +117,7 @@ Lemma begin_all_spec : forall ps base s s' bt,
 Proof.
   induction ps as [|[p g] r IH]; intros base s s' bt H ND; cbn in H.
   - inversion H; subst. split; [apply frame_refl|]. split; [intros k []|]. split; [reflexivity|]. intros p g [].
-  - destruct (begin_patch p (VFake base) s) as [s1 t] eqn:B.
+  - destruct (begin_patch p (newval p base s) s) as [s1 t] eqn:B.
     destruct (begin_all r (N.succ base) s1) as [s2 ts2] eqn:R.
     inversion H; subst; clear H. cbn in ND. inversion ND as [|? ? NI ND']; subst.
     destruct (begin_patch_spec _ _ _ _ _ B) as (F1 & T1 & I1 & OK1 & KO1).
@@ -157,7 +157,7 @@ Lemma patch_enter_tokens : forall ps base s s' ts,
 Proof.
   induction ps as [|p r IH]; intros base s s' ts H ND k old Hin; cbn in H.
   - inversion H; subst. destruct Hin.
-  - destruct (begin_patch p (VFake base) s) as [s1 t] eqn:B.
+  - destruct (begin_patch p (newval p base s) s) as [s1 t] eqn:B.
     destruct (patch_enter r (N.succ base) s1) as [s2 ts2] eqn:R.
     inversion H; subst; clear H. inversion ND as [|? ? NI ND']; subst.
     destruct (begin_patch_spec _ _ _ _ _ B) as (F1 & T1 & I1 & OK1 & KO1).
@@ -180,7 +180,7 @@ Lemma begin_all_tokens : forall ps base s s' bt,
 Proof.
   induction ps as [|[p g] r IH]; intros base s s' bt H ND k k' old Hin; cbn in H.
   - inversion H; subst. discriminate.
-  - destruct (begin_patch p (VFake base) s) as [s1 t] eqn:B.
+  - destruct (begin_patch p (newval p base s) s) as [s1 t] eqn:B.
     destruct (begin_all r (N.succ base) s1) as [s2 ts2] eqn:R.
     inversion H; subst; clear H. cbn in ND. inversion ND as [|? ? NI ND']; subst.
     destruct (begin_patch_spec _ _ _ _ _ B) as (F1 & T1 & I1 & OK1 & KO1).
@@ -362,29 +362,36 @@ Qed.
 Lemma novalue_same_attrs : forall r s s', (forall k, get k s' = get k s) -> novalue r s -> novalue r s'.
 Proof. intros r s s' E H k. rewrite E. apply H. Qed.
 
-Lemma novalue_begin_patch : forall r p n s s' t, host_value r ->
-  begin_patch p (VFake n) s = (s', t) -> novalue r s -> novalue r s'.
+Lemma novalue_begin_patch : forall r p nv s s' t,
+  opt_value_eqb (Some nv) r = false ->
+  begin_patch p nv s = (s', t) -> novalue r s -> novalue r s'.
 Proof.
-  intros r p n s s' t Hr B H. unfold begin_patch in B. destruct (target_ok p s); inversion B; subst; auto.
-  apply novalue_set; auto. apply (host_value_fresh r Hr).
+  intros r p nv s s' t Hv B H. unfold begin_patch in B. destruct (target_ok p s); inversion B; subst; auto.
+  apply novalue_set; auto.
+Qed.
+Lemma novalue_newval : forall r p base s, host_value r -> novalue r s ->
+  opt_value_eqb (Some (newval p base s)) r = false.
+Proof.
+  intros r p base s Hr H. unfold newval. destruct (p_new p); try apply (host_value_fresh r Hr).
+  specialize (H (pkey p)). destruct (get (pkey p) s) as [v|]; cbn [old_of]; auto. apply (host_value_fresh r Hr).
 Qed.
 Lemma novalue_patch_enter : forall r ps base s s' ts, host_value r ->
   patch_enter ps base s = (s', ts) -> novalue r s -> novalue r s'.
 Proof.
   induction ps as [|p q IH]; intros base s s' ts Hr E H; cbn in E.
   - inversion E; subst; auto.
-  - destruct (begin_patch p (VFake base) s) as [s1 t] eqn:B.
+  - destruct (begin_patch p (newval p base s) s) as [s1 t] eqn:B.
     destruct (patch_enter q (N.succ base) s1) as [s2 ts2] eqn:R. inversion E; subst.
-    eapply IH; eauto. eapply novalue_begin_patch; eauto.
+    eapply IH; eauto. eapply novalue_begin_patch; [|exact B|exact H]. apply novalue_newval; auto.
 Qed.
 Lemma novalue_begin_all : forall r ps base s s' ts, host_value r ->
   begin_all ps base s = (s', ts) -> novalue r s -> novalue r s'.
 Proof.
   induction ps as [|[p g] q IH]; intros base s s' ts Hr E H; cbn in E.
   - inversion E; subst; auto.
-  - destruct (begin_patch p (VFake base) s) as [s1 t] eqn:B.
+  - destruct (begin_patch p (newval p base s) s) as [s1 t] eqn:B.
     destruct (begin_all q (N.succ base) s1) as [s2 ts2] eqn:R. inversion E; subst.
-    eapply IH; eauto. eapply novalue_begin_patch; eauto.
+    eapply IH; eauto. eapply novalue_begin_patch; [|exact B|exact H]. apply novalue_newval; auto.
 Qed.
 
 Lemma novalue_old_of : forall r s k, host_value r -> novalue r s -> opt_value_eqb (Some (old_of (get k s))) r = false.
@@ -429,6 +436,15 @@ Qed.
 
 (* ------------------------------------------------------------------ the script *)
 
+Lemma mutate_get : forall k c s x, get x (mutate k c s) = get x s.
+Proof. intros; unfold mutate. destruct (get k s) as [[| | |]|]; reflexivity. Qed.
+Lemma mutate_rest : forall k c s, rest (mutate k c s) = rest s.
+Proof. intros; unfold mutate. destruct (get k s) as [[| | |]|]; reflexivity. Qed.
+Lemma mutate_fields : forall k c s,
+  cwd (mutate k c s) = cwd s /\ path (mutate k c s) = path s /\ meta (mutate k c s) = meta s /\ mods (mutate k c s) = mods s.
+Proof. intros; unfold mutate. destruct (get k s) as [[| | |]|]; repeat split; reflexivity. Qed.
+
+
 Lemma do_chdir_facts : forall f r d s,
   (forall k, get k (do_chdir f r d s) = get k s) /\ path (do_chdir f r d s) = path s /\
   meta (do_chdir f r d s) = meta s /\ mods (do_chdir f r d s) = mods s /\
@@ -441,16 +457,17 @@ Qed.
 
 Lemma run_op_meta : forall e o s, meta (run_op e o s) = meta s.
 Proof.
-  intros e o s; destruct o as [k [|n|k']|k|d|n kd|n|d]; cbn; auto.
+  intros e o s; destruct o as [k [|n|k']|k|d|n kd|n|d|k c]; cbn; auto.
   - destruct (get k' s); reflexivity.
   - apply do_chdir_facts.
+  - apply mutate_fields.
 Qed.
 Lemma run_ops_meta : forall e os s, meta (run_ops e os s) = meta s.
 Proof. intros e os; unfold run_ops. induction os as [|o r IH]; intros s; cbn; auto. rewrite IH. apply run_op_meta. Qed.
 
 Lemma run_op_novalue : forall r e o s, host_value r -> novalue r s -> novalue r (run_op e o s).
 Proof.
-  intros r e o s Hr H; destruct o as [k [|n|k']|k|d|n kd|n|d]; cbn.
+  intros r e o s Hr H; destruct o as [k [|n|k']|k|d|n kd|n|d|k c]; cbn.
   - apply novalue_set; auto. apply (host_value_fresh r Hr).
   - apply novalue_set; auto. apply (host_value_fresh r Hr).
   - destruct (get k' s) as [v|] eqn:G; auto. apply novalue_set; auto. rewrite <- G. apply H.
@@ -459,6 +476,7 @@ Proof.
   - eapply novalue_same_attrs; [|exact H]. reflexivity.
   - eapply novalue_same_attrs; [|exact H]. reflexivity.
   - eapply novalue_same_attrs; [|exact H]. reflexivity.
+  - eapply novalue_same_attrs; [|exact H]. intros x. apply mutate_get.
 Qed.
 Lemma run_ops_novalue : forall r e os s, host_value r -> novalue r s -> novalue r (run_ops e os s).
 Proof.
@@ -468,9 +486,10 @@ Qed.
 
 Lemma run_op_cwd : forall e o s, novalue (e_real_chdir e) s -> cwd (run_op e o s) = cwd s.
 Proof.
-  intros e o s H; destruct o as [k [|n|k']|k|d|n kd|n|d]; cbn; auto.
+  intros e o s H; destruct o as [k [|n|k']|k|d|n kd|n|d|k c]; cbn; auto.
   - destruct (get k' s); reflexivity.
   - apply do_chdir_facts. apply H.
+  - apply mutate_fields.
 Qed.
 Lemma run_ops_cwd : forall e os s, host_value (e_real_chdir e) -> novalue (e_real_chdir e) s ->
   cwd (run_ops e os s) = cwd s.
@@ -483,10 +502,11 @@ Qed.
 Definition no_path_ins (os : list op) : Prop := forall d, ~ In (OPathIns d) os.
 Lemma run_op_path : forall e o s, (forall d, o <> OPathIns d) -> path (run_op e o s) = path s.
 Proof.
-  intros e o s H; destruct o as [k [|n|k']|k|d|n kd|n|d]; cbn; auto.
+  intros e o s H; destruct o as [k [|n|k']|k|d|n kd|n|d|k c]; cbn; auto.
   - destruct (get k' s); reflexivity.
   - apply do_chdir_facts.
   - exfalso; apply (H d); reflexivity.
+  - apply mutate_fields.
 Qed.
 Lemma run_ops_path : forall e os s, no_path_ins os -> path (run_ops e os s) = path s.
 Proof.
